@@ -118,7 +118,7 @@ class KernelS(KernelX):
 
     def assign(self, t, v, st, stmt):
         if isinstance(t, ast.Name):
-            if isinstance(v, Arr) and v.ident.split('#')[0] in ('alloc', 'linspace', 'reshape', 'cumsum'):
+            if isinstance(v, Arr) and ('#' in v.ident) and v.ident.split('#')[0].rstrip("'") != t.id:
                 # give local arrays a readable, stable identity
                 nv = Arr(fresh(t.id), v.dims, v.nonesym, v.tags)
                 nv._lazy = v._lazy
@@ -160,8 +160,22 @@ class KernelS(KernelX):
         # invalidate remembered elements of this array
         for k in [k for k in st.elem if k[0] == base.ident]:
             del st.elem[k]
-        if key is not None and None not in key and isinstance(v, Int):
+        if key is not None and not any(x is None for x in key) and isinstance(v, Int):
             st.elem[(base.ident, tuple(key))] = v
+        name = base.ident.split('#')[0]
+        if '#' in base.ident:      # local array
+            rec = self.content_out.setdefault(name, [])
+            if isinstance(v, Int):
+                lo_ok = prove.entails_ge(st, v.lin)
+                his = []
+                for s_ in v.lin.syms():
+                    d = st.facts.atoms.get(s_)
+                    if d and d[0] == 'min' and v.lin == Lin.sym(s_):
+                        his.extend([d[1], d[2]])
+                his = [h for h in his if not any(('#' in x and not x.startswith('fdiv') and not x.startswith('min') and not x.startswith('max')) for x in h.syms())]
+                rec.append((lo_ok, his))
+            else:
+                rec.append((False, []))
 
     def st_AugAssign(self, s, st):
         t = s.target
